@@ -168,6 +168,15 @@ def replay(ctx, o):
         u = r['out'][:3]; nn = math.sqrt(sum(x * x for x in ax))
         if any(x != x for x in u): return True, 'native Spherical_Coordinates(%r,%r,%r,axis=%s) = %s (NaN)' % (r0, th, ph, ax, u)
         errn = abs(math.sqrt(sum(x * x for x in u)) - r0); errp = abs(sum(u[k] * ax[k] for k in range(3)) / nn - r0 * math.cos(th))
+        if 'right-handed' in key:
+            # pick an interior polar angle so that the azimuthal motion is visible, compare the central difference in phi with n^ x u
+            th2 = th if 0.2 < th < 2.9 else 1.0; h = 1e-6
+            up = native_la(ctx, 82, [r0, th2, ph + h], ax, vecA=True, vecB=True)['out'][:3]; um = native_la(ctx, 82, [r0, th2, ph - h], ax, vecA=True, vecB=True)['out'][:3]
+            u0 = native_la(ctx, 82, [r0, th2, ph], ax, vecA=True, vecB=True)['out'][:3]
+            du = [(a - b) / (2 * h) for a, b in zip(up, um)]; nh = [x / nn for x in ax]
+            cr = [nh[1] * u0[2] - nh[2] * u0[1], nh[2] * u0[0] - nh[0] * u0[2], nh[0] * u0[1] - nh[1] * u0[0]]
+            err = max(abs(a - b) for a, b in zip(du, cr))
+            return err > 1e-4 * r0, 'native d/dphi Spherical_Coordinates(%r,%r,phi=%r,axis=%s) = %s but n^ x u = %s' % (r0, th2, ph, ax, du, cr)
         return (errn > 1e-9 * r0 or errp > 1e-9 * r0), 'native result %s: |u|-r = %.3g, u.n^ - r cos(theta) = %.3g' % (u, errn, errp)
     if key.startswith('C16/rot3d') and 'axis' in m:
         ax = [fl(q) for q in m['axis']]
